@@ -79,6 +79,7 @@ class Block:
         self.eta = []          # constructor paths to eta-expand where passed as a function value (R9)
         self.eta_found = {}
         self.head_all = None   # head text for every fn of the block (a fn's own `head` is put after it)
+        self.as_spec = None    # R10: emit the selected fn a second time as `pub closed spec fn <as_spec>` (its spec twin)
 
 
 def _loop_key(arg):
@@ -284,6 +285,13 @@ class Assembler:
                             blk.cur.params_to_let = True
                         elif d == 'no-canary':
                             blk.cur.canary = False
+                        elif d.startswith('as-spec '):
+                            # R10: the selected fn (a pure function: match / boolean operators / calls of fns that have
+                            # a spec twin themselves) is emitted as `pub closed spec fn NAME` with its body verbatim: the
+                            # SPEC TWIN of the real fn.  The unit extracts the real fn as well and proves
+                            # `ensures r == twin(..)`, so the twin is derived from the current tree on every run and
+                            # checked against the executable text; nothing is hand-copied.
+                            blk.as_spec = d[8:].strip()
                         elif d.startswith('eta '):
                             # R8: a tuple-struct/variant constructor passed as a function value, `f(Path::Ctor)`, is
                             # eta-expanded to `f(|eta_x| Path::Ctor(eta_x))` (Verus: "using a datatype constructor as a
@@ -668,7 +676,17 @@ class Assembler:
                 edits.append((it.start, it.kw_start, ''))
 
         # doc comments inside are harmless (comments); attributes on the item are dropped (R4)
-        if item.kind == 'fn':
+        if blk.as_spec and item.kind != 'fn':
+            raise UnitSyntax('line %d: as-spec needs a fn selector' % blk.vu_line)
+        if item.kind == 'fn' and blk.as_spec:
+            if item.st_body is None:
+                raise AnchorLost('fn %s has no body to make a spec twin of (%s)' % (item.name, blk.relpath))
+            st = src.st
+            i0 = next(i for i, t in enumerate(st) if t.start >= item.kw_start and t.text == 'fn')
+            edits.append((item.start, st[i0 + 1].end, 'pub closed spec fn %s' % blk.as_spec))
+            self.rewrites.append('R10 %s:%d fn %s emitted as spec twin `%s` (body verbatim)'
+                                 % (blk.relpath, src.line_of(item.start), item.name, blk.as_spec))
+        elif item.kind == 'fn':
             strip_attrs(item)
             fn_edits(item, blk.fns.get(item.name))
             self.fn_origin[item.name] = (blk.relpath, self._path(parents, item))
